@@ -34,34 +34,49 @@ static void at_copy(ringbuffer_t *r)
 void h_ring_read_size(void)   { ringbuffer_t *ring; bool la; GHOSTS(); ring_read_size(ring, la); }
 void h_ring_write_size(void)  { ringbuffer_t *ring; GHOSTS(); ring_write_size(ring); }
 void h_ring_read_vector(void) { ringbuffer_t *ring; ring_t *r; bool la; GHOSTS(); ring_read_vector(ring, r, la); }
-void h_ring_write(void)       { ringbuffer_t *ring; const char *data; size_t len; GHOSTS(); g_in_write = 1; ring_write(ring, data, len); }
-void h_ring_read(void)        { ringbuffer_t *ring; char *data; size_t len; bool la; GHOSTS(); g_in_read = 1; ring_read(ring, data, len, la); }
+void h_ring_write(void)       { ringbuffer_t *ring; const char *data; size_t len; GHOSTS(); g_in_write = 1; ring_write(ring, data, len); V_COVER(len > 0 && ring->write < G_W0); /* wrapped */ }
+void h_ring_read(void)        { ringbuffer_t *ring; char *data; size_t len; bool la; GHOSTS(); g_in_read = 1; ring_read(ring, data, len, la); V_COVER(len > 0 && !la && ring->read < G_R0); V_COVER(la && len > 0); }
 
-/* Stale-snapshot lemmas (loop-free arithmetic over all sizes 2..RING_SMAX): each side's computation from a stale
- * copy of the OTHER side's index stays safe, because the other side only moves its index forward within its contract. */
-void h_stale_lemmas(void)
+/* Stale-snapshot lemmas (loop-free arithmetic over ALL ring sizes 2..RING_SMAX and all index values): each side's
+ * computation from a stale copy of the OTHER side's index stays safe, because the other side only moves its own
+ * index forward within its contract.
+ *   L1  reader progress by k <= used bytes shrinks the view by exactly k, i.e. the free space the writer computed
+ *       from the stale read index is a lower bound of the true free space;
+ *   L3  writer progress by m <= free bytes grows the view by exactly m, i.e. what the reader computed from the
+ *       stale write index is a lower bound of what may be consumed;
+ *   L4  for ANY (write, read): the positions the writer fills (write+i, i < m <= free) are disjoint from the
+ *       positions of the queued bytes (read+j, j < used). Instantiated at the advanced read index (by L1 still
+ *       m <= free) this is "bytes written under a stale read index never hit a byte still queued"; instantiated
+ *       at the stale write index it is "bytes the reader copies are not being written". */
+#define LEMMA_VARS uint32_t S, W, R0; __CPROVER_assume(S >= 2 && S <= RING_SMAX && W < S && R0 < S); size_t used0 = USED(W, R0, S); size_t free0 = S - 1 - used0
+void h_lemma_reader_progress(void)
 {
-    size_t S, W, R0, k, m, i, j;
-    __CPROVER_assume(S >= 2 && S <= RING_SMAX && W < S && R0 < S);
-    /* writer saw read == R0; meanwhile the reader consumed k <= used bytes */
-    size_t used0 = USED(W, R0, S);
+    LEMMA_VARS; uint32_t k, m;
     __CPROVER_assume(k <= used0);
     size_t R1 = IDX(R0, k, S);
-    __CPROVER_assert(USED(W, R1, S) == used0 - k, "C06 lemma: reader progress only grows the free space the writer computed");
-    /* so any len <= free(stale) written at W.. does not touch a byte still queued: queued = R1+j, j < used1 */
-    size_t free0 = S - 1 - used0;
-    __CPROVER_assume(m <= free0 && i < m && j < used0 - k);
-    __CPROVER_assert(IDX(W, i, S) != IDX(R1, j, S), "C06 lemma: bytes written under a stale read index are disjoint from the queued bytes");
-    /* reader saw write == W; meanwhile the writer appended m <= free bytes: available only grows, prefix unchanged positions */
+    __CPROVER_assert(USED(W, R1, S) == used0 - k, "C06 lemma L1: reader progress shrinks the view by exactly k");
+    __CPROVER_assume(m <= free0);
+    __CPROVER_assert(m <= S - 1 - USED(W, R1, S), "C06 lemma L1: a length that fit the stale free space fits the true free space");
+}
+void h_lemma_writer_progress(void)
+{
+    LEMMA_VARS; uint32_t m, n;
+    __CPROVER_assume(m <= free0);
     size_t W1 = IDX(W, m, S);
-    __CPROVER_assert(USED(W1, R0, S) == used0 + m, "C06 lemma: writer progress only grows what the reader may consume");
-    size_t j2; __CPROVER_assume(j2 < used0);
-    __CPROVER_assert(IDX(W, i, S) != IDX(R0, j2, S), "C06 lemma: bytes the reader copies under a stale write index are not being written");
+    __CPROVER_assert(USED(W1, R0, S) == used0 + m, "C06 lemma L3: writer progress grows the view by exactly m");
+    __CPROVER_assume(n <= used0);
+    __CPROVER_assert(n <= USED(W1, R0, S), "C06 lemma L3: a length available under the stale write index is still available");
+}
+void h_lemma_disjoint(void)
+{
+    LEMMA_VARS; uint32_t m, i, j;
+    __CPROVER_assume(m <= free0 && i < m && j < used0);
+    __CPROVER_assert(IDX(W, i, S) != IDX(R0, j, S), "C06 lemma L4: positions being written are disjoint from positions of queued bytes");
 }
 
 #ifdef THREADLINK
 void h_tl_hasNext(void)    { struct ThreadLink *tl; bool la; TLGHOSTS(); ThreadLink_hasNext(tl, la); }
-void h_tl_raw_write(void)  { struct ThreadLink *tl; const char *msg; TLGHOSTS(); ThreadLink_raw_write(tl, msg); }
+void h_tl_raw_write(void)  { struct ThreadLink *tl; const char *msg; TLGHOSTS(); off_t w0 = 0; ThreadLink_raw_write(tl, msg); V_COVER(G_MSGLEN > tl->MaxMsg); V_COVER(G_MSGLEN <= tl->MaxMsg); }
 void h_tl_writeArray(void) { struct ThreadLink *tl; const char *d, *a; const rtosc_arg_t *aa; TLGHOSTS(); ThreadLink_writeArray(tl, d, a, aa); }
-void h_tl_read(void)       { struct ThreadLink *tl; bool la; TLGHOSTS(); ThreadLink_read(tl, la); }
+void h_tl_read(void)       { struct ThreadLink *tl; bool la; TLGHOSTS(); ThreadLink_read(tl, la); V_COVER(la); V_COVER(!la); }
 #endif
